@@ -158,6 +158,8 @@ pub struct FnCx<'g> {
     pub bit_views: HashMap<String, String>,
     /// label of the loop that directly encloses the loop being translated
     pub enclosing_label: Option<String>,
+    /// `let x: &mut T = &mut y;`: x is another name for y
+    pub aliases: HashMap<String, String>,
 }
 
 pub type K<'a> = &'a dyn Fn(&mut FnCx, Option<Val>) -> R<String>;
@@ -168,6 +170,9 @@ impl<'g> FnCx<'g> {
         format!("t{}", self.tmp)
     }
     pub fn lookup(&self, name: &str) -> Option<Var> {
+        if let Some(target) = self.aliases.get(name) {
+            return self.lookup(&target.clone());
+        }
         for s in self.scopes.iter().rev() {
             if let Some(v) = s.get(name) {
                 return Some(v.clone());
@@ -244,6 +249,11 @@ pub fn sanitize(n: &str) -> String {
 }
 
 thread_local! {
+    /// unit-level readings of type names (e.g. the generic `R: Read` of `StripHeaderReader<R>`)
+    pub static TYPE_ALIASES: std::cell::RefCell<HashMap<String, Ty>> = std::cell::RefCell::new(HashMap::new());
+}
+
+thread_local! {
     pub static SELF_TY: std::cell::RefCell<Option<Ty>> = std::cell::RefCell::new(None);
     /// names of the translated structs (for rust_ty)
     pub static STRUCTS: std::cell::RefCell<Vec<String>> = std::cell::RefCell::new(vec![]);
@@ -292,6 +302,11 @@ pub fn rust_ty(t: &syn::Type) -> R<Ty> {
             }
             if STRUCTS.with(|st| st.borrow().contains(&name)) {
                 return Ok(Ty::Struct(name));
+            }
+            if p.path.segments.len() == 1 {
+                if let Some(t) = TYPE_ALIASES.with(|a| a.borrow().get(&name).cloned()) {
+                    return Ok(t);
+                }
             }
             if name == "IgnoredAny" {
                 return Ok(Ty::Unit);
@@ -453,6 +468,7 @@ pub fn translate_unit(src: &Path, unit: &Unit, g: &mut Global) -> R<String> {
     let file = syn::parse_file(&text).map_err(|e| format!("unsupported: parse error in {}: {}", unit.file, e))?;
     g.ns = unit.module.to_string();
     g.externs.clear();
+    TYPE_ALIASES.with(|a| a.borrow_mut().clear());
     let mut out = String::new();
     out.push_str("import SmVerif.Rs.Prelude\n");
     for imp in &unit.imports {
@@ -578,7 +594,7 @@ pub fn translate_unit(src: &Path, unit: &Unit, g: &mut Global) -> R<String> {
                     text.push_str(&format!("  | {}{}\n", sanitize(&v.ident.to_string()), args));
                     variants.push((v.ident.to_string(), tys));
                 }
-                text.push_str("  deriving DecidableEq, Repr\n\n");
+                text.push_str("  deriving DecidableEq, Repr, Inhabited\n\n");
                 out.push_str(&text);
                 g.enums.insert(name.to_string(), variants);
                 // enums are named types like structs
@@ -602,6 +618,10 @@ pub fn translate_unit(src: &Path, unit: &Unit, g: &mut Global) -> R<String> {
                 let ty = rust_ty(&t)?;
                 out.push_str(&format!("/- external function `{}` ({}): an explicit parameter of every function below -/\n\n", name, sig_text));
                 g.externs.push((name.to_string(), sanitize(name), ty));
+            }
+            Item::Reader(name) => {
+                TYPE_ALIASES.with(|a| a.borrow_mut().insert(name.to_string(), Ty::Reader));
+                out.push_str(&format!("/- the type parameter `{}: Read` is read as the list of chunks its successive `read` calls deliver (prelude `rsReaderRead`) -/\n\n", name));
             }
             Item::Mirror(name, text) => {
                 out.push_str(&format!("/- mirror (written by hand in tools/rs2lean/src/targets.rs, part of the trusted base): {} -/\n{}\n\n", name, text));
@@ -823,6 +843,7 @@ pub fn translate_fn_named(g: &Global, f: &syn::ItemFn, module: &str, owner: Opti
             generic_args: sig.generics.iter().filter(|(_, o)| *o).map(|(n, _)| format!(" lt_{}", n)).collect::<String>() + &g.externs.iter().map(|(_, l, _)| format!(" {}", l)).collect::<String>(),
             bit_views: HashMap::new(),
             enclosing_label: None,
+            aliases: HashMap::new(),
         };
         for p in &sig.params {
             cx.declare(&p.name, p.ty.clone());
@@ -835,6 +856,9 @@ pub fn translate_fn_named(g: &Global, f: &syn::ItemFn, module: &str, owner: Opti
                 None => {
                     if matches!(retp, Ty::Unit) {
                         cx.ret_text(None)
+                    } else if matches!(f.block.stmts.last(), Some(syn::Stmt::Expr(syn::Expr::Loop(_), _))) {
+                        // the body ends in a `loop` (type `!`): it only leaves through `return`; this point is unreachable
+                        Ok(".error .diverge".into())
                     } else {
                         Err("unsupported: function body without a tail value".into())
                     }
